@@ -435,8 +435,41 @@ class Sym:
     def __trunc__(self):
         return SymInt(z3.If(self.e >= 0, z3.ToInt(self.e), -z3.ToInt(-self.e)))
 
+    def __floordiv__(self, o):
+        oz = to_z3(o)
+        if oz is None:
+            return NotImplemented
+        CTX().note_divisor(oz)
+        return SymInt(z3.ToInt(self.e / oz))
+
+    def __rfloordiv__(self, o):
+        oz = to_z3(o)
+        if oz is None:
+            return NotImplemented
+        CTX().note_divisor(self.e)
+        return SymInt(z3.ToInt(oz / self.e))
+
+    def __mod__(self, o):
+        oz = to_z3(o)
+        if oz is None:
+            return NotImplemented
+        CTX().note_divisor(oz)
+        return Sym(self.e - oz * z3.ToReal(z3.ToInt(self.e / oz)))
+
+    def __rmod__(self, o):
+        oz = to_z3(o)
+        if oz is None:
+            return NotImplemented
+        CTX().note_divisor(self.e)
+        return Sym(oz - self.e * z3.ToReal(z3.ToInt(oz / self.e)))
+
+    def __divmod__(self, o):
+        return self.__floordiv__(o), self.__mod__(o)
+
     def __round__(self, n=None):
         # round-half-up on the reals; Python/numpy round half to even: the two differ only on exact ties (see DESIGN)
+        if n is None:
+            return SymInt(z3.ToInt(self.e + z3.RealVal(Fraction(1, 2))))
         n = int(n or 0)
         sc = z3.RealVal(Fraction(10) ** n)
         return Sym(z3.ToReal(z3.ToInt(self.e * sc + z3.RealVal(Fraction(1, 2)))) / sc)
@@ -546,6 +579,18 @@ class SymInt(Sym):
 
     def __neg__(self):
         return SymInt(-self.ie)
+
+    def __floordiv__(self, o):
+        if isinstance(o, numbers.Integral) and not isinstance(o, (Sym, bool)) and o > 0:
+            return SymInt(self.ie / z3.IntVal(int(o)))      # z3 integer division = floor for a positive divisor
+        if isinstance(o, SymInt):
+            return Sym.__floordiv__(self, o)
+        return Sym.__floordiv__(self, o)
+
+    def __mod__(self, o):
+        if isinstance(o, numbers.Integral) and not isinstance(o, (Sym, bool)) and o > 0:
+            return SymInt(self.ie % z3.IntVal(int(o)))
+        return Sym.__mod__(self, o)
 
     def __ceil__(self):
         return self
